@@ -24,6 +24,7 @@ type ProgOpt struct {
 	MaxWidth   int  // literal member count
 	Zones      bool // environment times in several zones
 	NoStringOf bool // avoid string()/print renderings (whose text is only characterised)
+	LazyValues bool // bind lazy function VALUES to variables and call them dynamically
 	NoPick     bool // do not use lz_pick (it evaluates one operand twice)
 	HostEnv    bool // environment types expressible as Go host data (optionals only as object fields / bindings)
 }
@@ -106,9 +107,11 @@ func fixFunVals(v *m.Val) *m.Val { return v }
 // function-typed variables are bound to harness functions of matching type
 var HsubT = m.Fun("hsub", []*m.Type{m.Num, m.Num}, m.Num)
 
+var LzAndT = m.Fun("lz_and", []*m.Type{m.Bool, m.Bool}, m.Bool)
+
 func funValueFor(ty *m.Type) string {
-	if m.Equal(ty, HsubT) {
-		return "hsub"
+	if m.Equal(ty, LzAndT) {
+		return "lz_and" // a LAZY function value bound to a variable
 	}
 	return "hsub"
 }
@@ -639,6 +642,13 @@ func (g *G) expr(want *m.Type, fuel int) *m.Expr {
 				g.stat("lz_and")
 				return g.call("lz_and", g.expr(m.Bool, fuel-1), g.expr(m.Bool, fuel-1))
 			})
+			if g.O.LazyValues {
+				add(1, func() *m.Expr { // a lazy function VALUE called through a non-identifier callee
+					g.stat("dynamic-call-of-lazy-value")
+					f := g.Var(LzAndT)
+					return m.DCall(m.Index(m.ListE(f), m.Lit("num", "0")), g.expr(m.Bool, fuel-1), g.expr(m.Bool, fuel-1))
+				})
+			}
 		}
 	case m.TTime:
 		add(3, func() *m.Expr { return g.literal(m.Time, 0) })
